@@ -597,6 +597,15 @@ def run(ck: Check):
                 nm = r.choice(["urn:foo-bar:a.b", "http://www.w3.org/2001/XMLSchema", "https://x.y/z.xsd", "##any", "a.b.c",
                                "generated.my-pkg.1st", "urn:", "http:", ":a", "www.wsdl.a", ".a..b.", "http://a:80/b#c"]) + r.choice(["", nm])
             add({"op": "filter", "conv": conv, "fn": r.choice(FILTER_FN), "name": nm}, kind="filter")
+    # ---------------- Filters.__init__ safe-prefix validation (fix for C07-F6)
+    for _ in range(60 * N):
+        conv = dict(DEFAULT_CONV)
+        for k in r.sample(CONV_KEYS, r.randint(1, 2)):
+            conv[k] = (conv[k][0], g_prefix(r))
+        add({"op": "filters_init", "conv": conv}, kind="filters_init")
+    for bad in ("", "_", "1", "1a", "é", "-"):
+        for k in CONV_KEYS:
+            add({"op": "filters_init", "conv": dict(DEFAULT_CONV, **{k: (DEFAULT_CONV[k][0], bad)})}, kind="filters_init", witness=True)
     # ---------------- rename handlers
     for _ in range(150 * N):
         nm = g_name(r)[:8]
@@ -686,13 +695,25 @@ def run(ck: Check):
         ck.failure("spec-identifier-vs-interpreter", f"Spec/PyIdent (with XID tables) and str.isidentifier/keyword disagree on {id_ops[i]['s']!r}",
                    {"name": id_ops[i]["s"]})
     rec_items = [it for it in items if it[2].get("err") == "RecursionError"]
-    codes = coq_codes("safe_term", "str", "(fun p => if slug_alpha p then 1 else 0)", [cstr(it[1]["prefix"]) for it in rec_items])
+    codes = coq_codes("safe_term", "str", "(fun p => if valid_prefix p then 1 else 0)", [cstr(it[1]["prefix"]) for it in rec_items])
     for it, code in zip(rec_items, codes):
-        # termination: only degenerate prefixes may recurse forever -- the theorem's guard, evaluated in Coq
+        # termination: only prefixes that Filters.__init__ refuses may recurse forever when safe_name is called
+        # directly (the guard of C07_safe_name_terminates, evaluated in Coq); not reachable through a Filters object
         if code == 1:
             ck.failure("safe-name-diverges", f"safe_name recursion does not end for a valid prefix: {it[1]}", {"op": it[1]})
+    # Filters.__init__ itself: model of the validation vs the implementation; a degenerate prefix that is accepted
+    # again is the regression of C07-F6
+    fi_items = items_of("filters_init")
+    fi_terms = [f"({conv_term(it[1]['conv'])}, {cbool(it[2]['ok'])})" for it in fi_items]
+    for it in run_pred("filters_init", "list (str * str) * bool", "agree_filters_init", fi_items, fi_terms):
+        if it[2]["ok"]:
+            ck.failure("safe-name-degenerate-prefix", f"Filters accepts the safe prefixes of {it[1]['conv']}: safe_name can recurse forever",
+                       {"op": it[1], "impl": it[2]})
         else:
-            ck.failure("safe-name-degenerate-prefix", f"safe_name({it[1]['name']!r}, prefix={it[1]['prefix']!r}) recurses forever", {"op": it[1]})
+            ck.failure("corr-filters-init", f"model and implementation disagree on Filters.__init__ for {it[1]['conv']}: impl={it[2]}",
+                       {"op": it[1], "impl": it[2]})
+    for it in fi_items:
+        distinct.add(("filters_init", json.dumps(it[1]["conv"], sort_keys=True)))
     for it in items:
         if "err" in it[2] and it[2]["err"] != "RecursionError":
             ck.failure("unexpected-exception-" + it[2]["err"], f"safe_name {it[1]} raised {it[2]}", {"op": it[1], "impl": it[2]})
@@ -748,17 +769,14 @@ def run(ck: Check):
     if dup_items:
         cterms = [f"({conv_term(it[3]['conv'])}, {cbool(it[2]['enum'])}, {lstr(it[2]['ok'])}, {lstr(it[2]['fields'])})" for it in dup_items]
         codes = coq_codes("dupfields", "list (str * str) * bool * list str * list str", "classify_dup_fields", cterms)
-        pref = coq_bad_indices("c07_prefcoll", IMPORTS, "", "list (str * str * option str)", "(fun l => negb (model_preference_collision l))",
-                               [clist(init_attrs(it), attr_term, "str * str * option str") for it in dup_items])
-        pref = set(pref)
         for k, (it, code) in enumerate(zip(dup_items, codes)):
             what = f"attrs {[(a['name'], a['tag'], a['ns']) for a in it[1]['attrs']]} -> names {it[2]['ok']} -> fields {it[2]['fields']}"
-            if code == 1 and k in pref:
+            if code == 1 and _pref_signature(it[2]["ok"], [a["tag"] for a in it[1]["attrs"]]):
                 ck.failure("dup-field-preference-rename", what, {"op": it[1], "impl": it[2]})
             elif code == 2:
                 ck.failure("dup-field-safe-adjust", what, {"op": it[1], "impl": it[2]})
             else:
-                ck.failure("dup-field-unexplained", what + f" (model class {code}, preference collision predicted: {k in pref})", {"op": it[1], "impl": it[2]})
+                ck.failure("dup-field-unexplained", what + f" (model class {code})", {"op": it[1], "impl": it[2]})
 
     items = items_of("rename_classes")
     for it in items:
